@@ -105,7 +105,7 @@ def run_z3(txt, timeout, want_model=True):
         path = f.name
     t0 = time.time()
     try:
-        p = subprocess.run([Z3BIN, f"-T:{int(timeout)}", path], capture_output=True, text=True, timeout=timeout + 5)
+        p = subprocess.run([Z3BIN, f"-T:{int(timeout)}", "model_validate=true", path], capture_output=True, text=True, timeout=timeout + 5)
         out = p.stdout.strip()
     except subprocess.TimeoutExpired:
         out = "timeout"
@@ -113,6 +113,8 @@ def run_z3(txt, timeout, want_model=True):
         os.unlink(path)
     dt = time.time() - t0
     first = out.split("\n", 1)[0].strip() if out else "error"
+    if first == "sat" and "invalid model" in out:
+        first = "unknown (z3 produced an invalid model)"
     return first, out, dt
 
 
@@ -196,8 +198,12 @@ async def _solve_async(pairs, timeout_all, jobs, tmpdir, variants=None):
             path = os.path.join(tmpdir, f"q{i}.smt2")
             with open(path, "w") as f:
                 f.write(txt.replace("(check-sat)", "(check-sat)\n(get-model)"))
-            out, dt = await _run_proc([Z3BIN, f"-T:{int(timeout)}", path], timeout)
+            # model_validate: z3's sequence solver occasionally answers `sat` with a model that falsifies a hypothesis (seen on the descriptor round-trip lemma);
+            # such an answer is no verdict -- the query goes on to cvc5 like an `unknown`
+            out, dt = await _run_proc([Z3BIN, f"-T:{int(timeout)}", "model_validate=true", path], timeout)
             first = out.split("\n", 1)[0].strip() if out else "error"
+            if first == "sat" and "invalid model" in out:
+                first = "unknown (z3 produced an invalid model)"
             ob.solver, ob.seconds = "z3-5.1", round(dt, 3)
             if first == "unsat":
                 ob.verdict = "discharged"
